@@ -610,3 +610,93 @@ theorem gr_mod_t_and_divide_q_last_inplace_bgv (r : RNSTool) (p : RnsPoly) (X : 
     rw [gr_flatP_getD hsh (by omega) hj, hv i j hi hj, hX _ j (by omega) hj, hX i j (by omega) hj]
     have := modTDivLast_scalar (x := X j) ht.two_le (hq _ (by omega)).two_le (hq i (by omega)).two_le (hinv i hi).2 hinvt hit
     exact ⟨this.1, this.2.1⟩
+
+/-! ### `sm_mrq` -/
+
+theorem gr_sm_model (r : RNSTool) (p : RnsPoly) :
+    r.smMrq p =
+      ((List.range' 0 r.baseBsk.size).mapM (fun i => gr_smComp (r.baseBsk.q i) r.mTilde (r.mTilde.value / 2) (r.prodQModBsk.getD i 0) (r.invMtModBsk.getD i default)
+          ((p.getD r.baseBsk.size #[]).toList.map (fun x => mulOpV x r.negInvProdQModMt r.mTilde)) (p.getD i #[]).toList) >>= fun outs =>
+       .ok (outs.map List.toArray).toArray) := by
+  unfold RNSTool.smMrq
+  dsimp only
+  rw [mapM'_ok (g := fun x => mulOpV x r.negInvProdQModMt r.mTilde) (fun x _ => gr_mulOperandMod _ _ _), ok_bind]
+  refine Eq.trans (congrArg (fun m => m >>= _) (gr_mapM_congr _ (fun i => gr_smComp (r.baseBsk.q i) r.mTilde (r.mTilde.value / 2) (r.prodQModBsk.getD i 0)
+          (r.invMtModBsk.getD i default) ((p.getD r.baseBsk.size #[]).toList.map (fun x => mulOpV x r.negInvProdQModMt r.mTilde)) (p.getD i #[]).toList
+          >>= fun c => .ok c.toArray) _ ?hb)) ?rest
+  case hb =>
+    intro i _
+    unfold gr_smComp
+    cases MulOperand.new (r.prodQModBsk.getD i 0) (r.baseBsk.q i) with
+    | error e => rfl
+    | ok pq =>
+      simp only [gr_ok_bind]
+      rw [gr_zipM'_eq]
+      simp only [Array.size_map, Array.toList_map, List.length_map, Array.length_toList]
+      have hcg : (List.range' 0 (p.getD r.baseBsk.size #[]).size).mapM (fun j =>
+            (do
+              let temp ← if ((p.getD r.baseBsk.size #[]).toList.map (fun x => mulOpV x r.negInvProdQModMt r.mTilde)).getD j 0 ≥ r.mTilde.value / 2 then do
+                    let d ← ckSub (r.baseBsk.q i).value r.mTilde.value
+                    ckAdd (((p.getD r.baseBsk.size #[]).toList.map (fun x => mulOpV x r.negInvProdQModMt r.mTilde)).getD j 0) d
+                  else pure (((p.getD r.baseBsk.size #[]).toList.map (fun x => mulOpV x r.negInvProdQModMt r.mTilde)).getD j 0)
+              let u ← mulOperandAddMod temp pq ((p.getD i #[]).toList.getD j 0) (r.baseBsk.q i)
+              mulOperandMod u (r.invMtModBsk.getD i default) (r.baseBsk.q i)))
+          = (List.range' 0 (p.getD r.baseBsk.size #[]).size).mapM (fun j => gr_smElt (r.baseBsk.q i) r.mTilde (r.mTilde.value / 2) pq (r.invMtModBsk.getD i default)
+              (((p.getD r.baseBsk.size #[]).toList.map (fun x => mulOpV x r.negInvProdQModMt r.mTilde)).getD j 0) ((p.getD i #[]).toList.getD j 0)) := by
+        apply gr_mapM_congr
+        intro j _
+        unfold gr_smElt
+        split
+        · cases ckSub (r.baseBsk.q i).value r.mTilde.value with
+          | error e => rfl
+          | ok d =>
+            cases ckAdd (((p.getD r.baseBsk.size #[]).toList.map (fun x => mulOpV x r.negInvProdQModMt r.mTilde)).getD j 0) d with
+            | error e => rfl
+            | ok t => rfl
+        · rfl
+      rw [hcg]
+  case rest =>
+    rw [List.range_eq_range', gr_mapM_map_ok]
+    cases (List.range' 0 r.baseBsk.size).mapM (fun i => gr_smComp (r.baseBsk.q i) r.mTilde (r.mTilde.value / 2) (r.prodQModBsk.getD i 0) (r.invMtModBsk.getD i default)
+          ((p.getD r.baseBsk.size #[]).toList.map (fun x => mulOpV x r.negInvProdQModMt r.mTilde)) (p.getD i #[]).toList) with
+    | error e => rfl
+    | ok outs => rfl
+
+theorem gr_shape_cs' {p : RnsPoly} {s n : Nat} (h1 : p.size = s) (h2 : ∀ i, i < s → (p.getD i #[]).size = n) :
+    (p.toList.map Array.toList).length = s ∧ ∀ c ∈ p.toList.map Array.toList, c.length = n := by
+  refine ⟨by simp [h1], ?_⟩
+  intro c hc
+  obtain ⟨a, ha, rfl⟩ := List.mem_map.mp hc
+  obtain ⟨i, hi, rfl⟩ := List.getElem_of_mem ha
+  have hi' : i < p.size := by simpa using hi
+  have := h2 i (by rw [← h1]; exact hi')
+  rw [Array.length_toList]
+  simpa [Array.getD_eq_getD_getElem?, hi'] using this
+
+theorem gr_baseq_toList (b : RNSBase) (i : Nat) : b.base.toList.getD i gr_dflt = b.q i := gr_q_toList b i
+
+/-- **`RNSTool::sm_mrq` (generated from src/util/rns.rs) = the hand model**: input = flat buffer of the `|Bsk| + 1` components (last one mod m̃),
+    destination = any flat buffer of `|Bsk|` components (its old contents are irrelevant).  All checked operations of the routine (the operand set-up
+    `MultiplyU64ModOperand::new`, `temp += b − m̃`, the multiply-add) trap on both sides alike: no well-formedness hypotheses. -/
+theorem gr_sm_mrq_eq (r : RNSTool) (p d : RnsPoly)
+    (hp1 : p.size = r.baseBsk.size + 1) (hp2 : ∀ i, i < r.baseBsk.size + 1 → (p.getD i #[]).size = r.n)
+    (hd1 : d.size = r.baseBsk.size) (hd2 : ∀ i, i < r.baseBsk.size → (d.getD i #[]).size = r.n)
+    (hpq : r.prodQModBsk.size = r.baseBsk.size) (hpqw : ∀ x ∈ r.prodQModBsk, x < 2^64) (hinv : r.baseBsk.size ≤ r.invMtModBsk.size)
+    (hsn : (r.baseBsk.size + 1) * r.n < 2^64) (hs64 : r.baseBsk.size + 1 < 2^64) :
+    GenR.sm_mrq (flatP p) (flatP d) r.baseBsk.size r.baseBsk.base.toList r.n r.mTilde r.negInvProdQModMt r.prodQModBsk.toList r.invMtModBsk.toList
+      = (r.smMrq p).map flatP := by
+  obtain ⟨hcs, hn⟩ := gr_shape_cs' hp1 hp2
+  obtain ⟨hds, hdn⟩ := gr_shape_cs' hd1 hd2
+  unfold flatP
+  rw [gr_sm_list _ _ r.baseBsk.base.toList r.prodQModBsk.toList r.invMtModBsk.toList r.mTilde r.negInvProdQModMt r.baseBsk.size r.n
+    (by simp [RNSBase.size]) (by simpa using hpq) (by intro x hx; exact hpqw x (by simpa using hx)) (by simpa using hinv) hsn hs64 hcs hn hds hdn,
+    gr_sm_model r p]
+  simp only [gr_q_toList, gr_cs_getD, gr_ops_toList, ← gr_arr_getD]
+  cases (List.range' 0 r.baseBsk.size).mapM (fun i => gr_smComp (r.baseBsk.q i) r.mTilde (r.mTilde.value / 2) (r.prodQModBsk.getD i 0) (r.invMtModBsk.getD i default)
+          ((p.getD r.baseBsk.size #[]).toList.map (fun x => mulOpV x r.negInvProdQModMt r.mTilde)) (p.getD i #[]).toList) with
+  | error e => rfl
+  | ok outs =>
+    simp only [gr_ok_bind]
+    show Except.ok _ = Except.ok _
+    congr 1
+    simp [List.map_map, Function.comp_def]
